@@ -193,6 +193,33 @@ def guard_rules(repo, res, rule="GUARD"):
     else:
         env5 = A.collect_envs(f5)
         pm5 = A.parent_map(f5.body)
+        # the mode: the parameter that the recursion below a Subword node sets to a constant (`true`, or a variant of a two-valued enum)
+        mode_idx, mode_on = None, None
+        sarm, _sm = RPL.arm_for(repo, f5, "Expr", "Subword")
+        if sarm is not None:
+            for c in P.find_calls(sarm["body"], names={f5.name}):
+                for i_, x_ in enumerate(c["args"]):
+                    r_ = A.resolve(x_, env5.get(id(c)))
+                    if r_ == ("lit", True) or (r_[0] == "path" and "::" in str(r_[1]) and str(r_[1]).split("::")[-1][:1].isupper()):
+                        mode_idx, mode_on = i_, r_
+
+        def mode_test(cnd, env, hf=None):
+            """+1: `cnd` says the mode is on (`flag`, `mode == On`); -1: it says the mode is off (`!flag`, `mode != On`); 0: neither.
+            In a helper the flag is whatever parameter of it the test reads (the helper was handed the caller's flag)."""
+            neg = 1
+            while cnd["k"] in ("Paren",) or (cnd["k"] == "Unary" and cnd.get("op") == "!"):
+                if cnd["k"] == "Unary":
+                    neg = -neg
+                cnd = cnd["expr"]
+            r_ = A.resolve(cnd, env)
+            if r_[0] == "param" and (hf not in (None, f5) or mode_idx is None or r_[1] == mode_idx) and (mode_on in (None, ("lit", True))):
+                return neg
+            if cnd["k"] == "Binary" and cnd["op"] in ("==", "!=") and mode_on is not None:
+                a_, b_ = A.resolve(cnd["left"], env), A.resolve(cnd["right"], env)
+                for u, v in ((a_, b_), (b_, a_)):
+                    if u[0] == "param" and (hf not in (None, f5) or u[1] == mode_idx) and v == mode_on:
+                        return neg if cnd["op"] == "==" else -neg
+            return 0
         ss = list(P.ctor_sites(f5.body, "Error::SubwordSpaces"))
         ok = len(ss) == 1
         why = f"{len(ss)} sites"
@@ -205,12 +232,11 @@ def guard_rules(repo, res, rule="GUARD"):
             ok = bool(arm) and bool(loops) and bool(iflets)
             if ok:
                 a = arm[-1][0]
-                guard_ok = a["guard"] is not None and A.resolve(a["guard"], env5.get(id(a["body"])) or A.fn_env(f5))[0] == "param"
+                guard_ok = a["guard"] is not None and mode_test(a["guard"], env5.get(id(a["body"])) or A.fn_env(f5)) == 1
                 if not guard_ok and a["guard"] is None:
                     # the same mode test as an early `if !within_subword { return Ok(()) }` standing in the arm before the check
                     for kind, cnd, st in A.preceding_guards(s, pm5):
-                        if kind == "if" and A.before(a["body"], st) and cnd["k"] == "Unary" and cnd.get("op") == "!" and \
-                                A.resolve(cnd["expr"], env5.get(id(cnd)) or env5.get(id(st["expr"])) or A.fn_env(f5))[0] == "param":
+                        if kind == "if" and A.before(a["body"], st) and mode_test(cnd, env5.get(id(cnd)) or env5.get(id(st["expr"])) or A.fn_env(f5)) == -1:
                             guard_ok = True
                 vs = [P.last(v[0]) for v in A.pat_variants(a["pat"])]
                 it = A.resolve(loops[0][0]["iter"], env5.get(id(loops[0][0])))
@@ -234,12 +260,12 @@ def guard_rules(repo, res, rule="GUARD"):
                     anchors = list(P.ctor_sites(hf.body, "Error::SubwordSpaces")) + (list(P.find_calls(hf.body, names={cf.name})) if cf is not hf else [])
                     for s_ in anchors:
                         for g, role in A.guards_of(s_, hpm):
-                            if g["k"] == "Arm" and g.get("guard") is not None and A.resolve(g["guard"], henv.get(id(g["body"])) or A.fn_env(hf))[0] == "param":
+                            if g["k"] == "Arm" and g.get("guard") is not None and mode_test(g["guard"], henv.get(id(g["body"])) or A.fn_env(hf), hf) == 1:
                                 under = True
-                            if g["k"] == "If" and role == "then" and A.resolve(g["cond"], henv.get(id(g)) or A.fn_env(hf))[0] == "param":
+                            if g["k"] == "If" and role == "then" and mode_test(g["cond"], henv.get(id(g)) or A.fn_env(hf), hf) == 1:
                                 under = True
                         for kind_, cnd, st in A.preceding_guards(s_, hpm):
-                            if kind_ == "if" and cnd["k"] == "Unary" and cnd.get("op") == "!" and A.resolve(cnd["expr"], henv.get(id(cnd)) or A.fn_env(hf))[0] == "param":
+                            if kind_ == "if" and mode_test(cnd, henv.get(id(cnd)) or A.fn_env(hf), hf) == -1:
                                 under = True
                 ok = under
                 why = core["why"] + f"; only within a word={under}"
@@ -248,9 +274,14 @@ def guard_rules(repo, res, rule="GUARD"):
         arm, m = RPL.arm_for(repo, f5, "Expr", "Subword")
         ok = False
         if arm is not None:
-            for c in P.find_calls(arm["body"], names={f5.name}):
-                ok = A.resolve(c["args"][-1], env5.get(id(c))) == ("lit", True)
-        res.check(ok, rule, f"{rule}:{fq5}:Subword-sets-flag", "recursion below a Subword node runs with within_subword = true", f5.loc())
+            ok = mode_idx is not None
+            if ok and mode_on != ("lit", True):
+                # an enum mode: the entry point must start in the OTHER value (a wrapper that starts in the within-word value checks
+                # every sequence of the grammar, not only those inside a word)
+                starts = [A.resolve(c["args"][mode_idx], A.collect_envs(g).get(id(c)) or A.fn_env(g)) for g in repo.fns_in(f5.module) if g is not f5
+                          for c in P.find_calls(g.body, names={f5.name}) if mode_idx < len(c["args"])]
+                ok = bool(starts) and all(st_[0] == "path" and st_ != mode_on for st_ in starts)
+        res.check(ok, rule, f"{rule}:{fq5}:Subword-sets-flag", "recursion below a Subword node runs with the within-word mode switched on", f5.loc())
         arm, m = RPL.arm_for(repo, f5, "Expr", "NontermRef")
         ok = False
         why = "no NontermRef arm"
@@ -313,7 +344,7 @@ def mpt_rules(repo, res, rule="MPT"):
     else:
         pm = A.parent_map(fn.body)
         cs = list(P.find_calls(fn.body, methods={"check_ambiguities"}))
-        ok = len(cs) == 1 and pm[id(cs[0])][0]["k"] == "Try" and not A.guards_of(cs[0], pm)
+        ok = len(cs) == 1 and A.propagates(cs[0], pm) and not A.guards_of(cs[0], pm)
         if ok:
             envs = A.collect_envs(fn)
             r = A.resolve(cs[0]["recv"], envs.get(id(cs[0])))
@@ -327,7 +358,7 @@ def mpt_rules(repo, res, rule="MPT"):
         # its error leaves the function: `check_subwords(..)?`, or the call is the function's own value
         tail = fn.body["stmts"][-1] if fn.body.get("stmts") else None
         is_value = len(cs) == 1 and tail is not None and tail["k"] == "ExprStmt" and not tail.get("semi") and tail["expr"] is cs[0]
-        ok = len(cs) == 1 and (pm[id(cs[0])][0]["k"] == "Try" or is_value) and not A.guards_of(cs[0], pm)
+        ok = len(cs) == 1 and (A.propagates(cs[0], pm) or is_value) and not A.guards_of(cs[0], pm)
         res.check(ok, rule, f"{rule}:{fq}:check_subwords", "check_subwords(firstpos, followpos, ..)? from the start positions", fn.loc())
     # Inp::from_input: every within-word automaton is checked before it is interned
     fq = "dfa::Inp::from_input"
@@ -342,7 +373,7 @@ def mpt_rules(repo, res, rule="MPT"):
         why = f"{len(interns)} intern sites"
         if ok:
             a = A.resolve(interns[0]["args"][0], envs.get(id(interns[0])))
-            chk = [c for c in P.find_calls(fn.body, methods={"check_ambiguity_best_effort"}) if pm[id(c)][0]["k"] == "Try"]
+            chk = [c for c in P.find_calls(fn.body, methods={"check_ambiguity_best_effort"}) if A.propagates(c, pm)]
             same = [c for c in chk if A.resolve(c["recv"], envs.get(id(c))) == a and A.before(c, interns[0])]
             same_block = [c for c in same if [id(g[0]) for g in A.guards_of(c, pm)] == [id(g[0]) for g in A.guards_of(interns[0], pm)]]
             ok = bool(same_block)
@@ -550,7 +581,7 @@ def cycseed(repo, res, rule="CYCSEED"):
             vtest = vis + ".contains"
             only_visited = all(vtest in cond_text(repo, fn, g[0]["cond"]).replace(" ", "") for g in gs) and all(x[0] == "if" and vtest in cond_text(repo, fn, x[1]).replace(" ", "") for x in pg)
             # errors propagate
-            tr = pm[id(c)][0]["k"] == "Try"
+            tr = A.propagates(c, pm)
             if only_visited and tr:
                 seeded_all = True
     res.check(seeded_all, rule, f"{rule}:{fq}:seeded-from-every-vertex",
@@ -576,6 +607,9 @@ def cycseed(repo, res, rule="CYCSEED"):
     if f2 is not None:
         pm2 = A.parent_map(f2.body)
         errs = list(P.ctor_sites(f2.body, "Error::NonterminalDefinitionsCycle"))
+        if not errs and calls and all(any(m["args"] and m["args"][0].get("k") == "Path" and m["args"][0]["path"].endswith("Error::NonterminalDefinitionsCycle") for m in A.err_adaptors_above(c, pm)) for c in calls):
+            # the walker returns the bare payload and every caller wraps it: `dfs(..).map_err(Error::NonterminalDefinitionsCycle)?`
+            errs = [n for n in A.walk(f2.body) if n["k"] == "Call" and n["func"]["k"] == "Path" and n["func"]["path"] == "Err"]
         recs = list(P.find_calls(f2.body, names={f2.name}))
         if len(errs) == 1 and len(recs) == 1:
             gs = [g for g in A.guards_of(errs[0], pm2) if g[0]["k"] == "If"]
@@ -604,7 +638,7 @@ def cycseed(repo, res, rule="CYCSEED"):
             pg = A.preceding_guards(recs[0], pm2)
             vname = next((prm["name"] for prm in f2.params if "UstrSet" in (prm.get("ty") or "")), "visited")
             skip = [x for x in pg if x[0] == "if" and (vname + ".contains") in cond_text(repo, f2, x[1]).replace(" ", "")]
-            ok = onpath and bool(skip) and A.before(gs[0][0], skip[0][2]) and pm2[id(recs[0])][0]["k"] == "Try"
+            ok = onpath and bool(skip) and A.before(gs[0][0], skip[0][2]) and A.propagates(recs[0], pm2)
     res.check(ok, rule, "CYCSEED:check::traverse_nonterminal_dependencies_dfs:back-edge", "edge to a vertex on the current path -> NonterminalDefinitionsCycle, tested before the visited skip; errors propagate with `?`", f2.loc() if f2 else "")
     return seeded_all
 
